@@ -14,14 +14,14 @@ RULE = ('bounded-exhaustive: every index vector of every ruleset in the shape fa
         'alpha at start/middle/end, adjacent alphas, values with spaces and non-ASCII) is expanded by the real create_guesses and compared '
         'as a multiset with the reference product; loader layer: every non-increasing probability column of length <=5 over {.5,.25,.125}; '
         'Markov layer: hand-written OMEN models x every listed level; non-trivial = pre-terminal with >=2 guesses or a capitalisation mask containing U')
-ASSUMPTIONS = ['guesses are observed by replacing the print_guess attribute of the grammar instance (the single output point)',
+ASSUMPTIONS = ['guesses are observed on the real stdout of create_guesses (redirected), i.e. after the grammar\'s own print_guess',
                'reference expansion and reference OMEN level sets are written independently (pcfgmc.rulesets.expand_pt / omen_level_set)']
 NSHARDS = 16
 
 A_VARIANTS = {
-    1: [[(.5, ['a']), (.25, ['b', 'c'])], [(1.0, ['é'])], [(1.0, ['\u00df'])]],
+    1: [[(.5, ['a']), (.25, ['b', 'c'])], [(1.0, ['é'])], [(1.0, ['\u00df'])], [(1.0, ['\u4e2d'])]],      # the last one: a letter without case (every mask gives the same string)
     # letters whose upper case is longer than one character (sharp s, j-caron, fi ligature): masks are applied letter by letter
-    2: [[(.5, ['ab', 'cd']), (.25, ['éf'])], [(.5, ['a\u00df', '\u00dfa']), (.25, ['\u01f0b', '\ufb01x'])]],
+    2: [[(.5, ['ab', 'cd']), (.25, ['éf'])], [(.5, ['a\u00df', '\u00dfa']), (.25, ['\u01f0b', '\ufb01x'])], [(.5, ['\u4e2d\u56fd', 'ab']), (.25, ['\u65e5a'])]],
     3: [[(1.0, ['xyz', 'ябв'])]],
 }
 D1 = [(.5, ['1', '2']), (.25, ['3'])]
@@ -124,9 +124,16 @@ def bounds(tier):
 
 
 def capture(g, pt, **kw):
-    lines = []
-    g.print_guess = lines.append
-    n = g.create_guesses(list(pt), **kw)
+    """What create_guesses really writes to stdout (through the grammar's own print_guess), and the count it reports."""
+    import contextlib
+    import io
+    buf = io.StringIO()
+    with contextlib.redirect_stdout(buf):
+        n = g.create_guesses(list(pt), **kw)
+    text = buf.getvalue()
+    lines = text.split('\n')
+    if lines and lines[-1] == '':
+        lines.pop()
     return lines, n
 
 
